@@ -29,7 +29,22 @@ func (e *Exec) ufTableFor(cells []Value) *ufTable {
 	if e.ufTables == nil {
 		e.ufTables = map[*Value]*ufTable{}
 	}
-	t := &ufTable{name: fmt.Sprintf("tbl!%d", len(e.ufTables)+1), cells: cells, sort: cells[0].(*Term).Sort, apps: map[int]*Term{}, facts: map[uint64]bool{}}
+	// the name must not depend on the order in which a path happens to touch the tables
+	// (all paths of a worker share one solver process and its global declarations): it is
+	// derived from the element sort, the length and the contents
+	h := uint64(14695981039346656037)
+	for _, c := range cells {
+		v := uint64(0)
+		if ct, ok := c.(*Term); ok {
+			v = ct.C
+		}
+		for i := 0; i < 8; i++ {
+			h ^= (v >> (8 * uint(i))) & 0xff
+			h *= 1099511628211
+		}
+	}
+	srt := cells[0].(*Term).Sort
+	t := &ufTable{name: fmt.Sprintf("tbl!%d!%d!%d!%x", srt.K, srt.W, len(cells), h), cells: cells, sort: cells[0].(*Term).Sort, apps: map[int]*Term{}, facts: map[uint64]bool{}}
 	e.ufTables[key] = t
 	e.ufOrder = append(e.ufOrder, t)
 	return t
